@@ -208,7 +208,16 @@ def gen_cases(ctx, tier):
         nk = rng.choice([2, 2, 3])
         progs = [[(10, rng.randint(0, 1))] * rng.randint(1, 4) for _f in range(rng.randint(1, 2))]
         cases.append(core.fmt_case([60000, nk], progs, core.random_sched(rng, nk, rng.randint(30, 1200), rng.randrange(3))))
-    ctx.coverage["case_distribution"] = {"random_programs": n, "join_heavy_programs": nj, "create_join_only": n}
+    # the main fiber's first blocking call is a sleep; the other fibers sleep and yield
+    ns = n // 2
+    for _ in range(ns):
+        nk = rng.choice([2, 2, 3, 4])
+        progs = [[(rng.choice([18, 18, 18, 1, 3, 2]), rng.randint(0, 1)) for _ in range(rng.randint(1, 4))]
+                 for _f in range(rng.randint(1, 4))]
+        cases.append(core.fmt_case([60000, nk, rng.choice([1, 2])], progs,
+                                   core.random_sched(rng, nk, rng.randint(30, 1500), rng.randrange(3))))
+    ctx.coverage["case_distribution"] = {"random_programs": n, "join_heavy_programs": nj, "create_join_only": n,
+                                         "main_sleeps_first": ns}
     return cases
 
 
